@@ -34,3 +34,103 @@ Section P.
     destruct (fa_setitem keq fromargs_empty 0 (str_c d)); reflexivity.
   Qed.
 End P.
+
+(* blocks_to_bytes between its prologue and the relaxation loop *)
+From PCD Require Gen.SrcFromArg Proofs.SrcFromArgTie.
+Section F.
+  Context {C : Type} (keq : C -> C -> bool) (is_str : C -> bool) (none_c : C) (str_c : str -> C).
+
+  Lemma foldM_app' {S A} (f : S -> A -> res S) l1 l2 s :
+    foldM f (l1 ++ l2) s = do s' <- foldM f l1 s; foldM f l2 s'.
+  Proof. revert s; induction l1 as [|x r IH]; intros s; [reflexivity|]. cbn [foldM app]. destruct (f s x); [apply IH | reflexivity]. Qed.
+  Lemma foldM_concat' {S A} (f : S -> A -> res S) (ls : list (list A)) s :
+    foldM (fun s l => foldM f l s) ls s = foldM f (concat ls) s.
+  Proof.
+    revert s; induction ls as [|l r IH]; intros s; [reflexivity|]. cbn [foldM concat]. rewrite foldM_app'.
+    destruct (foldM f l s); cbn [bind]; [apply IH | reflexivity].
+  Qed.
+
+  Definition fp_step (bt : option function) (fv : list str) (acc : list Z * encstate C) (instruction : instr_ C) : res (list Z * encstate C) :=
+    do v <- PCD.Gen.SrcFromArg.from_arg keq is_str none_c (i_arg instruction) bt fv (snd acc); OK (fst acc ++ [fst v], snd v).
+
+  Lemma fold_fp_step : forall bt fv l acc st,
+    foldM (fp_step bt fv) l (acc, st)
+    = match first_args keq is_str none_c l bt fv st with Err e => Err e | OK (vs, st') => OK (acc ++ vs, st') end.
+  Proof.
+    intros bt fv. induction l as [|i r IH]; intros acc st.
+    - cbn [foldM first_args]. rewrite app_nil_r. reflexivity.
+    - cbn [foldM first_args]. unfold fp_step at 1. cbn [snd fst]. rewrite SrcFromArgTie.from_arg_tie.
+      destruct (from_arg keq is_str none_c (i_arg i) bt fv st) as [[v st1]|e]; cbn [bind fst snd]; [|reflexivity].
+      rewrite IH. destruct (first_args keq is_str none_c r bt fv st1) as [[vs st2]|e]; [|reflexivity].
+      rewrite <- app_assoc. reflexivity.
+  Qed.
+
+  Lemma fold_additional : forall bt fv l st,
+    foldM (fun st arg => do v <- PCD.Gen.SrcFromArg.from_arg keq is_str none_c arg bt fv st; OK (snd v)) l st
+    = add_additional keq is_str none_c l bt fv st.
+  Proof.
+    intros bt fv. induction l as [|a r IH]; intros st; [reflexivity|].
+    cbn [foldM add_additional]. rewrite SrcFromArgTie.from_arg_tie.
+    destruct (from_arg keq is_str none_c a bt fv st) as [[v st1]|e]; cbn [bind snd]; [apply IH | reflexivity].
+  Qed.
+
+  Theorem first_pass_tie : forall blocks additional fv bt st0,
+    PCD.Gen.SrcIter.first_pass keq is_str none_c blocks additional fv bt st0 =
+    match first_args keq is_str none_c (concat blocks) bt fv st0 with
+    | Err e => Err e
+    | OK (vals0, st1) =>
+        match add_additional keq is_str none_c additional bt fv st1 with
+        | Err e => Err e
+        | OK st2 => OK (add_freevar_offset (zlen (fa_items (e_cellvars st2))) (concat blocks) vals0, st2)
+        end
+    end.
+  Proof.
+    intros blocks additional fv bt st0. unfold PCD.Gen.SrcIter.first_pass.
+    change (fun (acc : list Z * encstate C) (instruction : instr_ C) =>
+              do v <- PCD.Gen.SrcFromArg.from_arg keq is_str none_c (i_arg instruction) bt fv (snd acc); OK (fst acc ++ [fst v], snd v))
+      with (fp_step bt fv).
+    rewrite (foldM_concat' (fp_step bt fv)). rewrite fold_fp_step.
+    destruct (first_args keq is_str none_c (concat blocks) bt fv st0) as [[vals0 st1]|e]; cbn [bind app fst snd]; [|reflexivity].
+    rewrite fold_additional.
+    destruct (add_additional keq is_str none_c additional bt fv st1) as [st2|e]; cbn [bind]; reflexivity.
+  Qed.
+End F.
+
+(* blocks_to_bytes is: the translated prologue, the translated first pass, the relaxation (SrcRelaxTie: the iteration of the
+   translated step), the assembly (SrcAssembleTie: the translated step) and four translated to_tuple calls *)
+Section B.
+  Context {C : Type} (keq : C -> C -> bool) (is_str : C -> bool) (none_c : C) (str_c : str -> C).
+  Theorem blocks_to_bytes_outline : forall c blocks additional freevars bt,
+    blocks_to_bytes keq is_str none_c str_c c blocks additional freevars bt =
+    match PCD.Gen.SrcIter.enc_init keq str_c bt with
+    | Err e => Err e
+    | OK st0 =>
+        match PCD.Gen.SrcIter.first_pass keq is_str none_c blocks additional freevars bt st0 with
+        | Err e => Err e
+        | OK (vals1, st2) =>
+            match relax (3 * length (concat blocks) + 2) c blocks vals1 with
+            | Err e => Err e
+            | OK vals2 =>
+                match assemble c (concat blocks) vals2 0 empty_linemap with
+                | Err e => Err e
+                | OK (code, lm) =>
+                    match fa_to_tuple (e_names st2), fa_to_tuple (e_varnames st2),
+                          fa_to_tuple (e_cellvars st2), fa_to_tuple (e_consts st2) with
+                    | OK n, OK v, OK cv, OK k => OK (code, lm, n, v, cv, k)
+                    | Err e, _, _, _ => Err e
+                    | _, Err e, _, _ => Err e
+                    | _, _, Err e, _ => Err e
+                    | _, _, _, Err e => Err e
+                    end
+                end
+            end
+        end
+    end.
+  Proof.
+    intros c blocks additional freevars bt. unfold blocks_to_bytes. cbv zeta.
+    rewrite enc_init_tie. destruct (enc_init keq str_c bt) as [st0|e]; [|reflexivity].
+    rewrite first_pass_tie.
+    destruct (first_args keq is_str none_c (concat blocks) bt freevars st0) as [[vals0 st1]|e]; [|reflexivity].
+    destruct (add_additional keq is_str none_c additional bt freevars st1) as [st2|e]; reflexivity.
+  Qed.
+End B.
